@@ -37,6 +37,9 @@ ATTR_ITEMS = [['keep', '"true"'], ['DONT_TOUCH', None], ['src', '"f.v:12"'], ['m
 DEFAULT_FEATURES = {
     'fwd_named_any_order': False,   # D1: first forward named use may list ports in any order / partially
     'late_decl': True, 'negative_index': True, 'escaped': True, 'cells': True, 'prims': True,
+    'ansi_inherit': True,      # ANSI header: "input [3:0] a, b" - direction and range stay in force for the names that follow
+    'shared_range': True,      # "wire [3:2] x, y;" - the range belongs to every name
+    'cell_empty_body': True,   # a `celldefine module with nothing between header and endmodule
     'assign': True, 'params': True, 'attrs': True, 'positional': True, 'multi_assign': True, 'positional_prims': True,
 }
 
@@ -94,6 +97,24 @@ class Gen:
                         'decl_type': None, 'attrs': []})
         return out
 
+    def ansi_inherit(self, m):
+        """ANSI header: some ports have no direction keyword of their own ('inherit_dir': the direction in force is
+        theirs) and then sometimes no range of their own either ('inherit_rng': the range in force is theirs)"""
+        r = self.rng
+        if m['style'] != 'ansi' or not self.f.get('ansi_inherit'):
+            return
+        force = None
+        for p in m['ports']:
+            if 'alias' in p:
+                continue
+            if force is not None and r.random() < 0.35:
+                p['inherit_dir'] = True
+                p['dir'] = force[0]
+                if p['width'] is None or r.random() < 0.5:
+                    p['inherit_rng'] = True
+                    p['width'] = force[1]
+            force = (p['dir'], p['width'])
+
     def design(self):
         r = self.rng
         f = self.f
@@ -119,6 +140,8 @@ class Gen:
                           'ports': [{'name': self.pick_name(pu, PNAMES, None), 'width': r.choice([1, 1, 1, 2, 4])}
                                     for _ in range(r.randrange(1, 4))],
                           'positional': f['positional'] and f['positional_prims'] and r.random() < 0.3})
+        for m in mods + cells:
+            self.ansi_inherit(m)
         # hierarchy: module i instantiates modules j > i; every j > 0 has a parent i < j  (single root = mods[0])
         children = {i: [] for i in range(nm)}
         for j in range(1, nm):
@@ -149,7 +172,6 @@ class Gen:
         if c['style'] == 'plain':
             for p in c['ports']:
                 c['body'].append({'k': 'portdecl', 'ports': [p['name']]})
-        # (an ANSI-style celldefine module with an empty body is finding D8: kept out of the main stream)
         if r.random() < 0.4 or (not c['body'] and not self.f.get('cell_empty_body')):
             c['body'].append({'k': 'junk', 'text': r.choice([
                 'wire tmp_internal ;', 'and g1 ( o_x , a_x , b_x ) ;', 'reg [3:0] mem_q ;',
@@ -243,7 +265,9 @@ class Gen:
         late = []
         for _ in range(r.randrange(0, 3 + 2 * self.size)):
             n = self.pick_name(used, SIMPLE, ESCAPED)
-            if r.random() < 0.4:
+            if wires and wires[-1]['msb'] is not None and f.get('shared_range') and r.random() < 0.2:
+                rg = (wires[-1]['msb'], wires[-1]['lsb'])      # likely to share the declaration: "wire [3:2] x, y;"
+            elif r.random() < 0.4:
                 rg = (None, None)
             else:
                 lsb = r.choice([0, 0, 0, 1, 2, 3, 5]) if not (f['negative_index'] and r.random() < 0.08) else r.choice([-1, -2, -3])
@@ -255,8 +279,7 @@ class Gen:
                 late.append(item)
             else:
                 # several names in one declaration (only the first one takes the attributes -> none then)
-                # (a range shared by several names is finding D9: only scalars share a declaration here)
-                if wires and not item['attrs'] and not wires[-1]['attrs'] and r.random() < 0.25 and \
+                if wires and not item['attrs'] and not wires[-1]['attrs'] and r.random() < 0.4 and \
                         (item['msb'] is None or f.get('shared_range')) and \
                         (wires[-1]['msb'], wires[-1]['lsb'], wires[-1]['type']) == (item['msb'], item['lsb'], item['type']):
                     wires[-1]['names'].append(n)
@@ -337,7 +360,7 @@ class Gen:
                 if r.random() < 0.3 and plist:
                     plist = plist[:r.randrange(0, len(plist) + 1)]
             if kind == 'prim' and not plist and ports and r.random() < 0.85:
-                plist = [r.choice(ports)]   # (a primitive without any port is finding V04-portless-primitive: kept rare)
+                plist = [r.choice(ports)]   # (a primitive without any port: kept rare)
             for p in plist:
                 pw = p['width'] or 1
                 conns.append([p['name'], conn_expr(pw, True)])
@@ -467,7 +490,7 @@ class Writer:
                 # 'inherit_dir': no direction keyword of its own (takes the previous port's); 'decl_type': net type
                 hp.append(('' if p.get('inherit_dir') else p['dir'] + self.sp()) +
                           ((p['decl_type'] + self.sp()) if p.get('decl_type') else '') +
-                          self.rng_txt(None if w is None else w - 1, None if w is None else 0) + vname(p['name']))
+                          ('' if p.get('inherit_rng') else self.rng_txt(None if w is None else w - 1, None if w is None else 0)) + vname(p['name']))
             else:
                 hp.append(vname(p['name']))
         o.append((self.opt() + ',' + self.sp()).join(hp))
@@ -701,8 +724,15 @@ def features_of(design):
             inc('module_params')
         if m['attrs']:
             inc('module_attrs')
+        if m['style'] == 'ansi':
+            inc('ansi_port_inherits_direction', sum(1 for p in m['ports'] if p.get('inherit_dir')))
+            inc('ansi_port_inherits_range', sum(1 for p in m['ports'] if p.get('inherit_rng') and p.get('width') is not None))
+        if m['cell'] and not m['body']:
+            inc('cell_empty_body')
         for it in m['body']:
             k = it['k']
+            if k == 'wire' and it['msb'] is not None and len(it['names']) > 1:
+                inc('wire_decl_shared_range')
             if k == 'inst':
                 inc('instances')
                 inc('map_named' if it['named'] else 'map_positional')
